@@ -12,4 +12,4 @@ ASSUMPTIONS = ['path parameter types string / integer / int32 / int64 / boolean 
 
 def check(ctx):
     return servefam.check_prop(ctx, "C05", ["GoagModel.Props.C05"], THEOREMS, FACETS, TRUSTED, rule=RULE,
-                               explanation=EXPLANATION, assumptions=ASSUMPTIONS)
+                               explanation=EXPLANATION, assumptions=ASSUMPTIONS, level="translation_validation")
